@@ -67,16 +67,21 @@ def oracle(col, raw, B, V, loaded):
     return list(raw(col))     # integer / dimensionless / progenitor / light-cone pass-through
 
 
-def body(cleaned, convert, lc=False):
+def body(cleaned, convert, lc=False, requests=('all',)):
     c = ctx()
     case = dict(cleaned=cleaned, subsamples=False, convert_units=convert, lightcone=lc)
     c.extra['case'] = case
     c.extra['keyprefix'] = 'units:'
     c02.setup(c, cleaned, False)
+    for req in requests:
+        body_one(c, case, cleaned, convert, lc, req if isinstance(req, str) else list(req))
+
+
+def body_one(c, case, cleaned, convert, lc, req):
     try:
-        cat = catlib.construct('/cat', [0], cleaned, fields='all', convert_units=convert, halo_lc=lc)
+        cat = catlib.construct('/cat', [0], cleaned, fields=req, convert_units=convert, halo_lc=lc)
     except (KeyError, ValueError, TypeError) as e:
-        c.report('violation', f'fields="all" fails: {type(e).__name__}: {e}', key='units:raises', info=dict(request='all'))
+        c.report('violation', f'fields={req!r} fails: {type(e).__name__}: {e}', key='units:raises', info=dict(request=req))
         return
     hdr = catlib.ASDF.files['/cat/halo_info/halo_info_000.asdf']['header']
     B = hdr['BoxSize'] if convert else 1.0
@@ -94,7 +99,7 @@ def body(cleaned, convert, lc=False):
         rawname = 'N_total' if (cleaned and col == 'N') else col
         exp = oracle(rawname, raw, B, V, loaded)
         got = loaded(col)
-        info = dict(column=col, request='all')
+        info = dict(column=col, request=req)
         if exp == 'skip':
             continue
         if exp == 'eig':
@@ -126,7 +131,7 @@ def body(cleaned, convert, lc=False):
             a, b, d, t = (core.lift(x[k]).as_real() for x in (mn, md, mj, s3))
             c.prove(z3.Implies(t * t - d * d - a * a >= 0, a * a + b * b + d * d == t * t),
                     'squares of the three principal dispersions sum to the square of the 3D dispersion (same units)', key='units:sigmav-sum',
-                    info=dict(column=f'sigmavMid{com}', request='all'))
+                    info=dict(column=f'sigmavMid{com}', request=req))
 
 
 def items(tier, seed):
@@ -134,11 +139,26 @@ def items(tier, seed):
     for cleaned in (False, True):
         for convert in (True, False):
             out.append(dict(name=f'cleaned={int(cleaned)}/units={int(convert)}', cleaned=cleaned, convert=convert, lc=False))
+    # a ratio column requested together with the column it is relative to, in both orders (the loaders share
+    # one per-file raw table: a reference column scaled in place would reach its ratio columns twice)
+    reqs = []
+    for com in ('_com', '_L2com'):
+        rr = [n for n in chc.user_dt.names if re.fullmatch(r'(r\d{1,2}|rvcirc_max|sigmar)' + com, n) and n != 'r100' + com]
+        vv = [n for n in chc.user_dt.names if re.fullmatch(r'sigmav(Min|Mid|Maj|rad|tan)' + com, n)]
+        for dep, ref in [(n, 'r100' + com) for n in rr] + [(n, 'sigmav3d' + com) for n in vv]:
+            if dep in chc.user_dt.names and ref in chc.user_dt.names:
+                reqs += [[dep, ref], [ref, dep]]
+        reqs += [['x' + com, 'r100' + com, 'r50' + com if 'r50' + com in chc.user_dt.names else 'r100' + com], ['v' + com, 'sigmavMid' + com, 'sigmav3d' + com, 'sigmavMaj' + com]]
+    for cleaned in (False, True):
+        chunk = 12
+        for k in range(0, len(reqs), chunk):
+            out.append(dict(name=f'cleaned={int(cleaned)}/units=1/requests{k:03d}', cleaned=cleaned, convert=True, lc=False, requests=reqs[k:k + chunk]))
     return out
 
 
 def run(item):
-    return common.run_paths(lambda: body(item['cleaned'], item['convert'], item['lc']), cov_funcs=FUNCS, max_paths=2000)[0]
+    return common.run_paths(lambda: body(item['cleaned'], item['convert'], item['lc'], requests=item.get('requests', ('all',))),
+                            cov_funcs=FUNCS, max_paths=2000)[0]
 
 
 def finding_key(e):
@@ -157,7 +177,7 @@ sys.path.insert(0, {verif!r})
 import tempfile, warnings
 from checks import realcat
 from abacusnbody.data.compaso_halo_catalog import CompaSOHaloCatalog
-import asdf
+import asdf, re
 warnings.simplefilter('ignore')
 m = {m!r}
 case = {case!r}
@@ -167,17 +187,28 @@ B, V = realcat.fl(m.get('BoxSize', 2000)), realcat.fl(m.get('VelZSpace_to_kms', 
 if abs(B - V) < 1e-9 * abs(B): V = 0.37 * B + 1.0
 with tempfile.TemporaryDirectory() as d:
     gdir = realcat.write_catalog(d, m, slabs=(0,), nh=2, cleaned=case['cleaned'], box=B, velz=V)
-    cat = CompaSOHaloCatalog(gdir, cleaned=case['cleaned'], fields='all', convert_units=case['convert_units'])
+    cat = CompaSOHaloCatalog(gdir, cleaned=case['cleaned'], fields=info.get('request', 'all'), convert_units=case['convert_units'])
+    have = set(cat.halos.colnames)
     with asdf.open(os.path.join(gdir, 'halo_info', 'halo_info_000.asdf')) as af:
         raw = {{k: np.array(af['data'][k]) for k in af['data']}}
     b, v = (B, V) if case['convert_units'] else (1.0, 1.0)
     for com in ('_com', '_L2com'):
         s3 = raw['sigmav3d' + com].astype(float) * v
+        for nm in sorted(have):
+            mm = re.fullmatch(r'(r[0-9]{{1,2}}|rvcirc_max|sigmar)' + com, nm)
+            if mm and nm != 'r100' + com:
+                r100 = raw['r100' + com].astype(float) * b
+                exp = raw[nm + '_i16'].astype(float) / 32000 * (r100[:, None] if nm.startswith('sigmar') else r100)
+                got = np.asarray(cat.halos[nm], dtype=float)
+                if not np.allclose(got, exp, rtol=1e-5):
+                    bad.append(f'{{nm}} = {{got.tolist()}} but int16/32000 x r100{{com}} x BoxSize = {{exp.tolist()}}  [BoxSize={{B}}]')
         for stem, rawstem in (('Min', 'Min'), ('Maj', 'Max'), ('rad', 'rad'), ('tan', 'tan')):
+            if f'sigmav{{stem}}{{com}}' not in have: continue
             exp = raw[f'sigmav{{rawstem}}_to_sigmav3d{{com}}_i16'].astype(float) / 32000 * s3
             got = np.asarray(cat.halos[f'sigmav{{stem}}{{com}}'], dtype=float)
             if not np.allclose(got, exp, rtol=1e-5):
                 bad.append(f'sigmav{{stem}}{{com}} = {{got.tolist()}} but int16/32000 x sigmav3d{{com}} (km/s) = {{exp.tolist()}}  [BoxSize={{B}}, VelZSpace_to_kms={{V}}]')
+        if not all(f'sigmav{{s}}{{com}}' in have for s in ('Min', 'Mid', 'Maj', '3d')): continue
         mn, md, mj = (np.asarray(cat.halos[f'sigmav{{s}}{{com}}'], dtype=float) for s in ('Min', 'Mid', 'Maj'))
         tot = np.asarray(cat.halos['sigmav3d' + com], dtype=float)
         ok = np.isfinite(md)
